@@ -82,31 +82,66 @@ func (c *SpecCtx) evalInt(x SExpr) string {
 func bval(t string) Val { return Val{T: t, Ty: specBool} }
 func ival(t string) Val { return Val{T: t, Ty: specInt} }
 
-// withHeap evaluates f with the state's heap temporarily replaced.
+// snapshot captures the current heap versions together with the laziness bookkeeping (epoch, stale counters).
+func (s *State) snapshot() map[string]string {
+	h := make(map[string]string, len(s.heap)+len(s.stale)+1)
+	for k, v := range s.heap {
+		h[k] = v
+	}
+	h["$epoch"] = fmt.Sprint(s.epoch)
+	for k, v := range s.stale {
+		h["$stale:"+k] = fmt.Sprint(v)
+	}
+	return h
+}
+
+// withHeap evaluates f with the state's heap temporarily replaced by snapshot h.
 func (c *SpecCtx) withHeap(h map[string]string, f func() Val) Val {
 	s := c.s
-	saved := s.heap
+	saved, savedEpoch, savedStale := s.heap, s.epoch, s.stale
 	tmp := make(map[string]string, len(h))
+	stale := map[string]int{}
+	epoch := 0
 	for k, v := range h {
-		tmp[k] = v
+		switch {
+		case k == "$epoch":
+			fmt.Sscan(v, &epoch)
+		case strings.HasPrefix(k, "$stale:"):
+			n := 0
+			fmt.Sscan(v, &n)
+			stale[k[7:]] = n
+		default:
+			tmp[k] = v
+		}
 	}
-	s.heap = tmp
+	s.heap, s.epoch, s.stale = tmp, epoch, stale
 	savedOld := c.old
 	c.old = nil
 	defer func() {
 		for k, v := range tmp {
 			if _, ok := h[k]; !ok {
-				// lazily created initial heap versions are valid in every snapshot taken before
-				if _, ok2 := saved[k]; !ok2 {
+				h[k] = v
+				// a heap first mentioned inside old(): if it was never touched since the snapshot, the current version is the same
+				if _, ok2 := saved[k]; !ok2 && epoch == savedEpoch && stale[k] == savedStale[k] {
 					saved[k] = v
 				}
-				h[k] = v
 			}
 		}
-		s.heap = saved
+		s.heap, s.epoch, s.stale = saved, savedEpoch, savedStale
 		c.old = savedOld
 	}()
 	return f()
+}
+
+// oldHeapTerm returns the version of heap id in the old() snapshot (the current one if there is no snapshot).
+func (c *SpecCtx) oldHeapTerm(id, sort string) string {
+	if c.old == nil {
+		return c.s.heapTerm(id, sort)
+	}
+	if o, ok := c.old[id]; ok {
+		return o
+	}
+	return c.withHeap(c.old, func() Val { return Val{T: c.s.heapTerm(id, sort)} }).T
 }
 
 func (c *SpecCtx) eval(x SExpr) Val {
@@ -134,6 +169,26 @@ func (c *SpecCtx) eval(x SExpr) Val {
 		case "*":
 			v := c.eval(x.X)
 			return c.deref(v)
+		case "&":
+			f, ok := x.X.(*SField)
+			if !ok {
+				c.fail("& needs a field expression")
+			}
+			v := c.eval(f.X)
+			p, ok := v.Ty.Underlying().(*types.Pointer)
+			if !ok {
+				c.fail("&x.f needs a pointer x")
+			}
+			path, fty := findField(p.Elem(), f.Name)
+			if path == nil {
+				c.fail("no field %s", f.Name)
+			}
+			if v.Addr != nil {
+				a := *v.Addr
+				a.Path = append(append([]int{}, a.Path...), path...)
+				return Val{Ty: types.NewPointer(fty), Addr: &a}
+			}
+			return Val{Ty: types.NewPointer(fty), Addr: &Addr{Kind: AObj, Loc: v.T, RootTy: p.Elem(), Path: path}}
 		}
 	case *SCond:
 		cnd := c.evalBool(x.C)
@@ -462,14 +517,19 @@ func (c *SpecCtx) quant(q *SQuant) Val {
 			}
 		}
 	}
+	// nothing evaluated under the binder may leak into the path (bound variables are not in scope there)
+	ncmds, savedNoNames, savedAssumed := len(c.s.cmds), c.s.noNames, c.s.assumed
+	c.s.noNames = true
 	body := n.evalBool(q.Body)
+	var trigTerms []string
+	for _, t := range q.Trig {
+		trigTerms = append(trigTerms, n.eval(t).T)
+	}
+	c.s.cmds = c.s.cmds[:ncmds]
+	c.s.noNames, c.s.assumed = savedNoNames, savedAssumed
 	var trig string
-	if len(q.Trig) > 0 {
-		var ts []string
-		for _, t := range q.Trig {
-			ts = append(ts, n.eval(t).T)
-		}
-		trig = " :pattern (" + strings.Join(ts, " ") + ")"
+	if len(trigTerms) > 0 {
+		trig = " :pattern (" + strings.Join(trigTerms, " ") + ")"
 	}
 	g := and(guard...)
 	var inner string
@@ -560,22 +620,56 @@ func (c *SpecCtx) call(x *SCall) Val {
 				c.fail("unchanged expects heap names as strings")
 			}
 			id := e.modName(l.Val)
-			so := e.heapSorts[id]
+			so := e.heapSortFromID(id)
 			if so == "" {
-				continue // never touched in this run: trivially unchanged
+				c.fail("unchanged: unknown heap %s", id)
 			}
 			cur := s.heapTerm(id, so)
-			old := cur
-			if c.old != nil {
-				if o, ok := c.old[id]; ok {
-					old = o
-				} else {
-					old = e.d.symbol("H0_", id)
-				}
-			}
+			old := c.oldHeapTerm(id, so)
 			cs = append(cs, eq(cur, old))
 		}
 		return bval(and(cs...))
+	case "iofailed":
+		cur := s.heapTerm("gh:$iofail", "Int")
+		old := c.oldHeapTerm("gh:$iofail", "Int")
+		// an I/O failure happened during the call
+		if cur == old {
+			return bval("false")
+		}
+		return bval("(> " + cur + " " + old + ")")
+	case "preserved":
+		// preserved("E:uint8"): every backing array allocated in the old state has unchanged content
+		l := x.Args[0].(*SLit)
+		id := e.modName(l.Val)
+		so := e.heapSortFromID(id)
+		if so == "" {
+			c.fail("preserved: unknown heap %s", id)
+		}
+		cur := s.heapTerm(id, so)
+		old := c.oldHeapTerm(id, so)
+		a0 := c.oldHeapTerm(allocHeap, "(Array Int Bool)")
+		if cur == old {
+			return bval("true")
+		}
+		q := e.freshName("q_b")
+		return bval("(forall ((" + q + " Int)) (! (=> (select " + a0 + " " + q + ") (= (select " + cur + " " + q + ") (select " + old + " " + q + "))) :pattern ((select " + cur + " " + q + "))))")
+	case "onlyWindow":
+		// onlyWindow("E:uint8", p): the heap changed at most inside the window of slice p
+		l := x.Args[0].(*SLit)
+		id := e.modName(l.Val)
+		so := e.heapSortFromID(id)
+		if so == "" {
+			c.fail("onlyWindow: unknown heap %s", id)
+		}
+		p := arg(1)
+		cur := s.heapTerm(id, so)
+		old := c.oldHeapTerm(id, so)
+		if cur == old {
+			return bval("true")
+		}
+		qb, qi := e.freshName("q_b"), e.freshName("q_i")
+		in := "(and (= " + qb + " (s_base " + p.T + ")) (<= (s_off " + p.T + ") " + qi + ") (< " + qi + " (+ (s_off " + p.T + ") (s_len " + p.T + "))))"
+		return bval("(forall ((" + qb + " Int) (" + qi + " Int)) (! (=> (not " + in + ") (= (select (select " + cur + " " + qb + ") " + qi + ") (select (select " + old + " " + qb + ") " + qi + "))) :pattern ((select (select " + cur + " " + qb + ") " + qi + "))))")
 	case "allocated":
 		return bval("(select " + s.allocTerm() + " " + s.term(arg(0)) + ")")
 	case "fresh":
@@ -584,10 +678,7 @@ func (c *SpecCtx) call(x *SCall) Val {
 		if c.old == nil {
 			c.fail("fresh() needs an old state")
 		}
-		a0 := c.old[allocHeap]
-		if a0 == "" {
-			a0 = s.heapTerm(allocHeap, "(Array Int Bool)")
-		}
+		a0 := c.oldHeapTerm(allocHeap, "(Array Int Bool)")
 		return bval(and("(> "+s.term(v)+" 0)", "(not (select "+a0+" "+s.term(v)+"))"))
 	case "int", "int64", "int32", "int16", "int8", "uint", "uint64", "uint32", "uint16", "uint8", "byte":
 		var bk types.BasicKind
@@ -635,7 +726,36 @@ func (c *SpecCtx) call(x *SCall) Val {
 	}
 	if g, ok := e.ghosts[x.Fn]; ok {
 		v := arg(0)
-		return Val{T: s.ghostRead(g, s.term(v)), Ty: g.Ty}
+		var key string
+		switch {
+		case x.Fn == "held":
+			key = e.mutexKeyOf(s, v)
+		case v.Addr != nil:
+			key = e.objKey(s, v)
+		default:
+			key = refOf(s, v)
+		}
+		if sp, ok := isSpec(g.Ty); ok && sp.Sort == "Bytes" {
+			e.needBytes()
+			s.groups["bytes"] = true
+		}
+		return Val{T: s.ghostRead(g, key), Ty: g.Ty}
+	}
+	switch x.Fn {
+	case "lockcount":
+		return ival(s.lockCountTerm())
+	case "smhas", "smval":
+		m := arg(0)
+		k := arg(1)
+		kt := s.term(k)
+		if _, isI := k.Ty.Underlying().(*types.Interface); !isI {
+			kt = e.mkIface(k.Ty, kt)
+		}
+		mk := e.objKey(s, m)
+		if x.Fn == "smhas" {
+			return bval("(select (select " + s.heapTerm("gh:$smhas", "(Array Int (Array Iface Bool))") + " " + mk + ") " + kt + ")")
+		}
+		return Val{T: "(select (select " + s.heapTerm("gh:$smval", "(Array Int (Array Iface Iface))") + " " + mk + ") " + kt + ")", Ty: types.NewInterfaceType(nil, nil)}
 	}
 	if sf, ok := e.specFuncs[x.Fn]; ok {
 		e.declareSpecFunc(sf)
